@@ -450,7 +450,8 @@ func (o *ovsdbClient) tryEndpoint(ctx context.Context, u *url.URL) (string, erro
 func (o *ovsdbClient) createRPC2Client(conn net.Conn) {
 	o.stopCh = make(chan struct{})
 	if o.options.inactivityTimeout > 0 {
-		o.trafficSeen = make(chan struct{})
+		// (one pending signal is enough, and a sender never waits: see transact)
+		o.trafficSeen = make(chan struct{}, 1)
 	}
 	o.rpcClient = rpc2.NewClientWithCodec(newSerialCodec(jsonrpc.NewJSONCodec(conn)))
 	o.rpcClient.SetBlocking(true)
@@ -875,7 +876,13 @@ func (o *ovsdbClient) transact(ctx context.Context, dbName string, skipChWrite b
 	}
 
 	if !skipChWrite && o.trafficSeen != nil {
-		o.trafficSeen <- struct{}{}
+		// Tell the inactivity probe that the server is alive, without waiting
+		// for it: the probe may be busy disconnecting, which needs the lock
+		// this call holds.
+		select {
+		case o.trafficSeen <- struct{}{}:
+		default:
+		}
 	}
 	return reply, nil
 }
